@@ -541,7 +541,7 @@ func c16Corrupt(r *Rng, line string) (string, string) {
 }
 
 func runC16(c *Ctx) {
-	nCases := c.N(40000, 1500000)
+	nCases := c.N(40000, 4000000)
 	root := NewRng(c.Seed).Fork(16)
 	self, _ := os.Executable()
 	const batch = 4000
@@ -647,7 +647,7 @@ func annoShape(cs c16Case) string {
 }
 
 func c16EndToEnd(c *Ctx, r *Rng) {
-	n := c.N(60, 1500)
+	n := c.N(60, 6000)
 	parallel(n, 12, func(i int) {
 		rr := r.Fork(uint64(i))
 		// a file: class definitions for every name used, then annotated statements, one annotation each
@@ -763,7 +763,7 @@ func c16EndToEnd(c *Ctx, r *Rng) {
 // c16BlockNeighbours: one malformed line in the middle of a multi-line annotation block (fields of a class, parameters
 // of a function). What the other lines of the same block declare must be understood exactly as before.
 func c16BlockNeighbours(c *Ctx, r *Rng) {
-	n := c.N(200, 3000)
+	n := c.N(200, 10000)
 	parallel(n, 12, func(i int) {
 		rr := r.Fork(uint64(i))
 		types := []string{"number", "string", "People", "People[]", "table<string, People>", "fun(a: number): string", "number | string", "boolean"}
